@@ -27,6 +27,12 @@ def sym_seq(ctx, name, kind='list', origin='Source'):
     return s
 
 
+def text_cell(ctx, name):
+    c = sym_cell(name)
+    ctx.assume(smt.cls(c.t) == smt.TEXT)
+    return c
+
+
 # (qualified generator name, args builder(ctx) , expected number of emitted rows, note)
 CATALOGUE = [
     (T + 'basics.itercut', lambda c: [H(c, 'S'), sym_seq(c, 'spec', 'tuple'), None], 1),
@@ -66,6 +72,13 @@ CATALOGUE = [
     (T + 'setops.iterintersection', lambda c: [H(c, 'A'), H(c, 'B')], 1),
     (T + 'reshape.itermelt', lambda c: [H(c, 'S'), sym_seq(c, 'key', 'tuple'), None, 'variable', 'value'], 1),
     ('petl.util.base.itervalues', lambda c: [H(c, 'S'), sym_seq(c, 'field', 'tuple')], 0),
+    # key-less aggregation of an empty table is ONE row holding the aggregate of nothing (documented zero-row value)
+    (T + 'reductions.itersimpleaggregate', lambda c: [H(c, 'S'), None, UCall('aggregation', may_raise=False), None, 'value'], 2),
+    (T + 'reductions.itersimpleaggregate', lambda c: [H(c, 'S'), None, bi.BUILTINS['len'], None, 'value'], 2),
+    (T + 'reductions.itersimpleaggregate', lambda c: [H(c, 'S'), (text_cell(c, 'k1'), text_cell(c, 'k2')), f1('aggregation'), None, 'value'], 1),
+    (T + 'reductions.itersimpleaggregate', lambda c: [H(c, 'S'), text_cell(c, 'k'), f1('aggregation'), None, 'value'], 1),
+    (T + 'reductions.iterfold', lambda c: [H(c, 'S'), sym_seq(c, 'key', 'tuple'), f1('f'), None], 1),
+    (T + 'reductions.iterrowreduce', lambda c: [H(c, 'S'), sym_seq(c, 'key', 'tuple'), f1('reducer'), sym_seq(c, 'header', 'tuple')], 1),
 ]
 
 
